@@ -2,28 +2,35 @@
   Neigh.Model — executable functional model of
     /repo/validatornode/application/network/neighborhood.go   (Neighborhood)
     /repo/validatornode/application/network/target.go         (Target)
+  as they are AFTER the two repairs seeded/_fixes/c17-normalise-target.diff and
+  seeded/_fixes/c17-incentive-validates.diff:
+
+  * `NewTargetFromValue(v)` = `NewTarget(ip, port)` for `(ip, port) = net.SplitHostPort(v)`, i.e. its
+    `Value()` is the canonical spelling `net.JoinHostPort(ip, port)`;
+  * `NewNeighborhood` re-keys the seeds by canonical spelling (malformed seeds dropped, the higher score
+    wins when two spellings meet);
+  * `AddTargets` and `Incentive` key the score map by `target.Value()`; `Incentive` ignores a target that is
+    malformed or on another network and creates an entry with score 1 for an acceptable unknown one.
 
   Core Lean only.  One definition per Go function, same tests in the same order, quirks kept:
 
-  * `Incentive` on an unknown value creates an entry with score 1 whatever the value is
-    (malformed, foreign network, the host itself);
-  * `Synchronize` uses the seeds iff the score map is EMPTY (junk entries count as "known"),
-    always resets the score map, and computes `outboundsCount = min(len(map), max)` where `len(map)`
-    counts the host entry, malformed and unreachable entries too;
+  * `Synchronize` uses the seeds iff the score map is EMPTY, always resets the score map, and computes
+    `outboundsCount = min(len(map), max)` where `len(map)` counts the host entry and unreachable entries too;
   * `selectOutbounds` slices `temp[:outboundsCount-len(outbounds)]`; with a negative bound Go panics.
     The panic is a distinguished outcome here (`none` / `Outcome.panic`), it is not totalised away.
     It happens after the score map was reset and before `senders` is assigned.
 
   External behaviour that the model does NOT re-implement is a parameter:
 
-  * `Env.parse`        — `NewTargetFromValue` (= `net.SplitHostPort`): `some (ip, port)` or `none` on error;
+  * `Env.parse`        — `net.SplitHostPort`: `some (ip, port)` or `none` on error;
+  * `Env.join`         — `net.JoinHostPort`;
   * `Env.senderTarget` — `Sender.Target()` of the sender that `CreateSender(ip, port)` returns
-                          (production: `net.JoinHostPort(LookupIP(ip), port)`, which may differ textually
-                          from the announced value);
+                          (production: `net.JoinHostPort(LookupIP(ip), port)`);
   * `reachable`        — whether `CreateSender(ip, port)` succeeds, a parameter of every round;
   * `order`            — the Go map iteration order of that round (any rearrangement of the entries);
   * `shuffle`          — `rand.Shuffle` of the last bucket (any rearrangement).
-  The theorems in `Neigh.Props` quantify over all of them.
+  The theorems in `Neigh.Props` quantify over all of them (with the hypotheses `Env.RoundTrip`,
+  `Env.TargetIsJoin` of `Neigh.Spec` where stated).
 
   Go strings are byte strings; the model uses Lean `String` (valid UTF-8).  Go `int` scores are
   modelled as unbounded `Int` (2^63 incentives of one target within one round are out of scope).
@@ -66,6 +73,12 @@ def Scores.incr : Scores → String → Scores
   | [], k => [(k, 1)]
   | (k', v) :: m, k => if k' = k then (k', v + 1) :: m else (k', v) :: Scores.incr m k
 
+/-- `m[k] = max(m[k], v)`, creating the key when missing (seed re-keying in `NewNeighborhood`). -/
+def Scores.mergeMax : Scores → String → Int → Scores
+  | [], k, v => [(k, v)]
+  | (k', v') :: m, k, v =>
+    if k' = k then (k', if v' < v then v else v') :: m else (k', v') :: Scores.mergeMax m k v
+
 /-! ## senders, environment, state -/
 
 /-- What `CreateSender(ip, port)` returned.  `value` is ghost data: the map key the sender was created
@@ -79,43 +92,62 @@ structure Sender where
 deriving DecidableEq, Repr, Inhabited
 
 structure Env where
-  /-- `NewTargetFromValue(value)`: `some (ip, port)`, or `none` when `net.SplitHostPort` fails. -/
+  /-- `net.SplitHostPort(value)`: `some (ip, port)`, or `none` on error. -/
   parse : String → Option (String × String)
+  /-- `net.JoinHostPort(ip, port)` -/
+  join : String → String → String
   /-- `Target()` of the sender created for `(ip, port)`. -/
   senderTarget : String → String → String
 
 structure State where
   hostIp : String
   hostPort : String
-  /-- `hostTarget.Value()` = `net.JoinHostPort(hostIp, hostPort)`, supplied as data. -/
+  /-- `hostTarget.Value()` = `net.JoinHostPort(hostIp, hostPort)` -/
   hostValue : String
   max : Int
   seeds : Scores
   scores : Scores
   senders : List Sender
 
-/-- `NewNeighborhood` -/
-def State.init (hostIp hostPort hostValue : String) (max : Int) (seeds : Scores) : State :=
-  { hostIp, hostPort, hostValue, max, seeds, scores := [], senders := [] }
+/-- `NewTargetFromValue(value)`: ip, port and `Value()` (the canonical spelling), or `none` on error. -/
+def newTargetFromValue (env : Env) (value : String) : Option (String × String × String) :=
+  match env.parse value with
+  | none => none
+  | some (ip, port) => some (ip, port, env.join ip port)
+
+/-- body of the seed loop of `NewNeighborhood` -/
+def addSeed (env : Env) (seeds : Scores) (e : String × Int) : Scores :=
+  match newTargetFromValue env e.1 with
+  | none => seeds
+  | some (_, _, value) => seeds.mergeMax value e.2
+
+/-- `NewNeighborhood`; `seeds` is the caller's map (in any iteration order). -/
+def State.init (env : Env) (hostIp hostPort : String) (max : Int) (seeds : Scores) : State :=
+  { hostIp, hostPort, hostValue := env.join hostIp hostPort, max,
+    seeds := seeds.foldl (addSeed env) [], scores := [], senders := [] }
 
 /-! ## AddTargets / Incentive -/
 
 /-- body of the `for` loop of `AddTargets` -/
 def addTarget (env : Env) (st : State) (targetValue : String) : State :=
-  let isTargetAlreadyKnown := st.scores.has targetValue
-  match env.parse targetValue with
+  match newTargetFromValue env targetValue with
   | none => st
-  | some (_, port) =>
+  | some (_, port, value) =>
+    let isTargetAlreadyKnown := st.scores.has value
     let isTargetOnSameNetwork := sameNetwork st.hostPort port
     if !isTargetAlreadyKnown && isTargetOnSameNetwork then
-      { st with scores := st.scores.addNew targetValue 0 }
+      { st with scores := st.scores.addNew value 0 }
     else st
 
 def addTargets (env : Env) (st : State) (targetValues : List String) : State :=
   targetValues.foldl (addTarget env) st
 
-def incentive (st : State) (targetValue : String) : State :=
-  { st with scores := st.scores.incr targetValue }
+def incentive (env : Env) (st : State) (targetValue : String) : State :=
+  match newTargetFromValue env targetValue with
+  | none => st
+  | some (_, port, value) =>
+    let isTargetOnSameNetwork := sameNetwork st.hostPort port
+    if isTargetOnSameNetwork then { st with scores := st.scores.incr value } else st
 
 /-! ## Synchronize -/
 
@@ -217,7 +249,7 @@ inductive Op where
 
 def step (env : Env) (st : State) : Op → State
   | .addTargets vs => addTargets env st vs
-  | .incentive v => incentive st v
+  | .incentive v => incentive env st v
   | .synchronize r o s => (synchronize env r o s st).1
 
 def run (env : Env) (st : State) (ops : List Op) : State := ops.foldl (step env) st
